@@ -31,6 +31,8 @@ TABLE = [
     ('Form.__call__ as decorator (incl. dtype / nthreads / params)', 'yes', 'yes'),
     ('Form.__call__ on a defined form: form(basis)', 'no', 'FAILS on the unchanged tree: AttributeError (key form-call:defined-form)'),
     ('Form.partial / Form.block / Form.elemental / Form.coo_data', 'yes', 'yes'),
+    ('Form.partial / block / decorator / Form(form_obj) x complex dtype x nthreads x **params (Bilinear, Linear, Functional)', 'real dtype only',
+     'result == un-wrapped complex form with the argument bound by hand; dtype, nthreads, params kept'),
     ('AbstractBasis.zero_w / zeros / ones / global_coordinates', 'no', 'shapes / equality with default_parameters()["x"]'),
     ('AbstractBasis.get_dofs / complement_dofs, Dofs.get_*_dofs, DofsView.*', 'no', 'out of scope: DOF lookup is property C07'),
     ('CellBasis.probes / interpolator / point_source / refinterp', 'no', 'out of scope: point evaluation is property C14'),
@@ -176,6 +178,65 @@ def one(ctx, mesh, spec, seed, report):
                                           float(np.abs(xb[outd]).max(initial=0.0))), {'tolerance': 1e-9})
 
 
+def form_copies(ctx):
+    """the form-copying wrappers (partial, block, decorator, Form(form_obj, ...)) keep dtype, nthreads and **params and give the
+    same complex result as the un-wrapped form with the argument bound by hand — BilinearForm, LinearForm, Functional"""
+    import skfem
+    from skfem.assembly import BilinearForm, LinearForm, Functional, CellBasis
+    C = np.complex128
+    z = 1.0 + 2.0j
+    for mesh, spec, seed in (('tri-struct', 'ElementTriP2', 31), ('quad-jiggled', 'ElementQuad1', 32)):
+        m = O1.make_mesh(mesh, seed)
+        b = CellBasis(m, O1.make_elem(spec), intorder=3)
+
+        def f2(u, v, w, alpha=1.0):
+            return alpha * z * (u * v + u.grad[0] * v) * (1.0 + w['x'][0])
+
+        def f1(v, w, alpha=1.0):
+            return alpha * z * v * (1.0 + w['x'][0])
+
+        def f0(w, alpha=1.0):
+            return alpha * z * (1.0 + w['x'][0])
+
+        def g2(u1, u2, v1, v2, w):
+            return z * (u1 * v2 + 2.0 * u2.grad[0] * v1 + u1 * v1)
+        kinds = {
+            'BilinearForm': (BilinearForm, f2, lambda F: F.assemble(b).toarray(), lambda u, v, w: f2(u, v, w, 3.0)),
+            'LinearForm': (LinearForm, f1, lambda F: F.assemble(b), lambda v, w: f1(v, w, 3.0)),
+            'Functional': (Functional, f0, lambda F: np.asarray(F.elemental(b)), lambda w: f0(w, 3.0)),
+        }
+        for name, (cls, f, run_, bound) in kinds.items():
+            ref = run_(cls(bound, dtype=C))
+            variants = {
+                'partial': lambda: cls(f, dtype=C, nthreads=2, tag=7).partial(alpha=3.0),
+                'decorator': lambda: cls(dtype=C, nthreads=2, tag=7)(bound),
+                'Form(form_obj)': lambda: cls(cls(bound), dtype=C, nthreads=2, tag=7),
+                'partial-of-decorated': lambda: cls(dtype=C, nthreads=2, tag=7)(f).partial(alpha=3.0),
+            }
+            for vn, mk in variants.items():
+                info = {'mesh': mesh, 'elem': spec, 'mseed': seed, 'form_type': name, 'wrapper': vn}
+                F = mk()
+                got = run_(F)
+                ctx.count(('form-copy', info), nontrivial=True)
+                ctx.hist('api wrapper', f'{name}.{vn} complex')
+                attrs = (F.dtype, F.nthreads, F.params)
+                if attrs != (C, 2, {'tag': 7}):
+                    ctx.fail(f'api:form-copy:{vn}:attributes', f'{name}: {vn} does not keep dtype / nthreads / params of the form',
+                             dict(info, got=str(attrs), expected=str((C, 2, {'tag': 7}))))
+                if np.shape(got) != np.shape(ref) or not np.iscomplexobj(got) or _rel(got, ref) > TOL:
+                    ctx.fail(f'api:form-copy:{vn}:{name}', f'{name}: {vn} of a complex form differs from the form with the argument bound by hand '
+                             '(imaginary part lost?)', dict(info, got_dtype=str(np.asarray(got).dtype), max_abs_imag_expected=float(np.abs(np.imag(ref)).max()),
+                                                            max_abs_imag_got=float(np.abs(np.imag(got)).max())))
+        # block on a two-field form
+        info = {'mesh': mesh, 'elem': spec, 'mseed': seed, 'form_type': 'BilinearForm', 'wrapper': 'block'}
+        Fb = BilinearForm(g2, dtype=C, nthreads=2, tag=7).block(0, 1)
+        got = Fb.assemble(b, b).toarray()
+        ref = BilinearForm(lambda u, v, w: g2(u, u.zeros(), v.zeros(), v, w), dtype=C).assemble(b, b).toarray()
+        ctx.count(('form-copy', info), nontrivial=True)
+        if (Fb.dtype, Fb.nthreads, Fb.params) != (C, 2, {'tag': 7}) or not np.iscomplexobj(got) or _rel(got, ref) > TOL:
+            ctx.fail('api:form-copy:block', 'Form.block of a complex form differs from the hand-padded form or loses dtype / nthreads / params', info)
+
+
 def run(ctx):
     logging.getLogger('skfem').setLevel(logging.ERROR)
     warnings.simplefilter('ignore')
@@ -193,6 +254,11 @@ def run(ctx):
             import traceback
             ctx.fail(f'api:exception:{O1.FAMILY[mesh]}', f'{type(e).__name__}: {e}', {'mesh': mesh, 'elem': spec, 'mseed': seed,
                                                                                       'traceback': traceback.format_exc()[-1500:]})
+    try:
+        form_copies(ctx)
+    except Exception as e:
+        import traceback
+        ctx.fail('api:form-copy:exception', f'{type(e).__name__}: {e}', {'traceback': traceback.format_exc()[-1500:]})
     # Form.__call__ on a defined form
     import skfem
     from skfem.assembly import BilinearForm, Basis
